@@ -44,4 +44,17 @@ let () =
     spec "c14_drawn_card_removed" (o.(1) = "1") "";
     !fails);
   register "dealt" (fun _ _ -> [Specfail ("c14_dealt_cards_overlap", "hole cards / streets dealt from one deck overlap")]);
+  (* consecutive hands: the second is dealt from a full deck, so it shares a card with the first with probability
+     1 - C(48,4)/C(52,4) (standard deck) resp. 1 - C(32,4)/C(36,4) (short deck); 6.5 sigma *)
+  register "redeal" (fun i o ->
+    if o.(0) = "P" then [Specfail ("c14_redeal_aborts", "")] else begin
+    let n = float_of_string i.(1) and k = float_of_string o.(0) in
+    let ds = if directive "deck" "std" = "short" then 36.0 else 52.0 in
+    let c4 x = x *. (x -. 1.) *. (x -. 2.) *. (x -. 3.) /. 24.0 in
+    let p = 1.0 -. c4 (ds -. 4.0) /. c4 ds in
+    let sd = sqrt (n *. p *. (1.0 -. p)) in
+    (if Float.abs (k -. n *. p) <= 6.5 *. sd then [] else
+       [Specfail ("c14_next_hand_dealt_from_a_full_deck", Printf.sprintf "%s of %s consecutive hands share a card with the hand before (expected %.0f +- %.0f)" o.(0) i.(1) (n *. p) sd)])
+    @ (if int_of_string o.(1) = int_of_float ds then [] else [Specfail ("c14_every_card_can_be_dealt", o.(1) ^ " different cards seen in the hole cards of " ^ i.(1) ^ " hands")])
+    end);
   register "dealtsummary" (fun _ o -> if o.(0) = "0" then [] else [Specfail ("c14_dealt_cards_overlap", o.(0) ^ " hands")])
